@@ -144,7 +144,7 @@ Definition xcfg_sites_expected : list site := [
   ("parseLines", "unbound:p_natoms", [1], 2)
 ].
 
-Definition cif_guards_expected : list (string * string) := [("_expandAsymmetricUnit", "v12 > 0"); ("_expandAsymmetricUnit", "v3.anisotropy"); ("_expandAsymmetricUnit", "v5.label + '_' + str(v11) in v8"); ("_expandAsymmetricUnit", "v5.label not in v0.anisotropy"); ("_parseCifBlock", "'_atom_site_label' not in v2"); ("_parseCifDataSource", "v0.stru is not None"); ("_parseSymOpTranslation", "not _rx_symop_translation.match(v0)"); ("_parseSymOpTranslation", "v4 and float(v4) == 0"); ("_parse_atom_site_aniso_label", "'_atom_site_aniso_label' not in v1"); ("_parse_atom_site_aniso_label", "v7 == '?'"); ("_parse_atom_site_aniso_label", "v7 not in v0.anisotropy"); ("_parse_atom_site_label", "v3"); ("_parse_atom_site_label", "v8 == '?'"); ("_parse_lattice", "'_cell_length_a' not in v1"); ("_parse_space_group_symop_operation_xyz", "v0.spacegroup is None"); ("_parse_space_group_symop_operation_xyz", "v0.spacegroup is None and v10 and IsSpaceGroupIdentifier(v10)"); ("_parse_space_group_symop_operation_xyz", "v3"); ("_parse_space_group_symop_operation_xyz", "v4"); ("_parse_space_group_symop_operation_xyz", "v4 and v0.spacegroup is None"); ("_tr_atom_site_label", "not v0.element"); ("leading_float", "v2 == '.' or v2 == '?'"); ("leading_float", "v3")].
+Definition cif_guards_expected : list (string * string) := [("_expandAsymmetricUnit", "v12 > 0"); ("_expandAsymmetricUnit", "v3.anisotropy"); ("_expandAsymmetricUnit", "v5.label + '_' + str(v11) in v8"); ("_expandAsymmetricUnit", "v5.label not in v0.anisotropy"); ("_parseCifBlock", "'_atom_site_label' not in v2"); ("_parseCifDataSource", "v0.stru is not None"); ("_parseSymOpTranslation", "not _rx_symop_translation.match(v0)"); ("_parseSymOpTranslation", "v4 and float(v4) == 0"); ("_parse_atom_site_aniso_label", "'_atom_site_aniso_label' not in v1"); ("_parse_atom_site_aniso_label", "v7 == '?'"); ("_parse_atom_site_aniso_label", "v7 not in v0.anisotropy"); ("_parse_atom_site_label", "v11 == '?'"); ("_parse_atom_site_label", "v3"); ("_parse_lattice", "'_cell_length_a' not in v1"); ("_parse_space_group_symop_operation_xyz", "v0.spacegroup is None"); ("_parse_space_group_symop_operation_xyz", "v0.spacegroup is None and v10 and IsSpaceGroupIdentifier(v10)"); ("_parse_space_group_symop_operation_xyz", "v3"); ("_parse_space_group_symop_operation_xyz", "v4"); ("_parse_space_group_symop_operation_xyz", "v4 and v0.spacegroup is None"); ("_tr_atom_site_label", "not v0.element"); ("leading_float", "v2 == '.' or v2 == '?'"); ("leading_float", "v3")].
 Definition cif_sites_expected : list site := [
   ("_expandAsymmetricUnit", "call:Atom", [], 1);
   ("_expandAsymmetricUnit", "call:ExpandAsymmetricUnit", [], 1);
@@ -172,12 +172,12 @@ Definition cif_sites_expected : list site := [
   ("_parse_atom_site_aniso_label", "call:index", [], 1);
   ("_parse_atom_site_aniso_label", "index", [], 3);
   ("_parse_atom_site_aniso_label", "index_store", [], 1);
+  ("_parse_atom_site_label", "call:<expr>", [], 1);
   ("_parse_atom_site_label", "call:GetLoop", [], 1);
   ("_parse_atom_site_label", "call:_get_atom_setters", [], 1);
   ("_parse_atom_site_label", "call:addNewAtom", [], 1);
-  ("_parse_atom_site_label", "call:fset", [], 1);
   ("_parse_atom_site_label", "call:index", [], 1);
-  ("_parse_atom_site_label", "index", [], 1);
+  ("_parse_atom_site_label", "index", [], 5);
   ("_parse_atom_site_label", "index_store", [], 2);
   ("_parse_lattice", "call:Lattice", [], 1);
   ("_parse_lattice", "call:leading_float", [1], 6);
